@@ -95,7 +95,6 @@ structure SameCore (s s' : St) : Prop where
   len : s'.tasks.length = s.tasks.length
   pc : ∀ u, pcOf s' u = pcOf s u
   key : ∀ u, keyOf s' u = keyOf s u
-  clen : s'.conns.length = s.conns.length
   idle : s'.idle = s.idle
 
 theorem SameCore.rfl' (s : St) : SameCore s s := by constructor <;> intros <;> rfl
@@ -109,7 +108,6 @@ theorem SameCore.trans {a b c : St} (h1 : SameCore a b) (h2 : SameCore b c) : Sa
   · rw [h2.len, h1.len]
   · intro u; rw [h2.pc, h1.pc]
   · intro u; rw [h2.key, h1.key]
-  · rw [h2.clen, h1.clen]
   · rw [h2.idle, h1.idle]
 
 theorem hostCount_core {s s' : St} (h : SameCore s s') (k : Key) : hostCount s' k = hostCount s k := by
@@ -527,15 +525,15 @@ theorem WaitInv.moves {s s' : St} {t : Tid} {p q : Pc} (h : WaitInv s) (m : Move
 
 theorem popIdle_nil (s : St) (k : Key) : popIdle s k [] = (none, []) := rfl
 
-theorem tryGet_false {s : St} {t : Tid} {x : Task} (h : (tryGet s t x).2 = false) :
-    (tryGet s t x).1 = { s with idle := (popIdle s x.key s.idle).2 } := by
+theorem tryGet_false {s : St} {t : Tid} {x : Task} {b : Bool} (h : (tryGet s t x b).2 = false) :
+    (tryGet s t x b).1 = { s with idle := (popIdle s x.key s.idle).2 } := by
   unfold tryGet at *; dsimp only at *; split at h
   · next e => simp [e]
   · cases h
 
 theorem inv_tryGet {s : St} {t : Tid} {x : Task} (h : Inv s) (hw : WaitInv s) (hx : s.tasks[t]? = some x)
-    (hn : x.pc.neutral) (hcap : hasCap s x.key = true) (htw : t ∉ s.waitq) :
-    Inv (tryGet s t x).1 ∧ WaitInv (tryGet s t x).1 := by
+    (hn : x.pc.neutral) (hcap : hasCap s x.key = true) (htw : t ∉ s.waitq) (b : Bool) :
+    Inv (tryGet s t x b).1 ∧ WaitInv (tryGet s t x b).1 := by
   have hidle : s.closed = true → (popIdle s x.key s.idle).2 = [] := by
     intro hc; rw [(h.closed_empty hc).2.2]; rfl
   unfold tryGet; dsimp only; split
@@ -546,7 +544,8 @@ theorem inv_tryGet {s : St} {t : Tid} {x : Task} (h : Inv s) (hw : WaitInv s) (h
       · rfl
       · rw [(h.closed_empty e).2.2] at hc; cases hc
     have m : Moves s (setTask (acquire { s with idle := (popIdle s x.key s.idle).2 } x.key (.conn c)) t
-        { x with pc := .holding c }) t x.pc (.holding c) := Moves.mk' (y := { x with pc := .holding c }) hx rfl rfl rfl rfl rfl
+        { x with pc := .holding c, tr := suspendAt { s with idle := (popIdle s x.key s.idle).2 } 0 (.reuse b) }) t x.pc (.holding c) :=
+      Moves.mk' (y := { x with pc := .holding c, tr := suspendAt { s with idle := (popIdle s x.key s.idle).2 } 0 (.reuse b) }) hx rfl rfl rfl rfl rfl
     refine ⟨h.add m hcl (by rw [keyOf_of_get hx]; exact hcap) hn (Or.inr ⟨c, rfl, rfl⟩) rfl ?_, ?_⟩
     · rw [keyOf_of_get hx]; rfl
     · exact hw.moves m (fun u hu => Or.inl hu) (Or.inl htw)
@@ -557,8 +556,8 @@ theorem inv_reserve {s : St} {t : Tid} {x : Task} (h : Inv s) (hw : WaitInv s) (
   unfold reserve
   cases hcl : s.closed
   · simp only [Fixes.all, Bool.and_false, Bool.false_eq_true, if_false]
-    have m : Moves s (setTask (acquire s x.key (.ph t)) t { x with pc := .creating none }) t x.pc (.creating none) :=
-      Moves.mk' (y := { x with pc := .creating none }) hx rfl rfl rfl rfl rfl
+    have m : Moves s (setTask (acquire s x.key (.ph t)) t { x with pc := .creating none, tr := suspendAt s 3 .cstart }) t x.pc (.creating none) :=
+      Moves.mk' (y := { x with pc := .creating none, tr := suspendAt s 3 .cstart }) hx rfl rfl rfl rfl rfl
     refine ⟨h.add m hcl (by rw [keyOf_of_get hx]; exact hcap) hn (Or.inl ⟨none, rfl, rfl⟩) rfl ?_, ?_⟩
     · rw [keyOf_of_get hx]; rfl
     · exact hw.moves m (fun u hu => Or.inl hu) (Or.inl htw)
@@ -579,7 +578,7 @@ theorem inv_park {s : St} {t : Tid} {x x0 : Task} (h : Inv s) (hw : WaitInv s) (
     (hk : x.key = x0.key) (hn : x0.pc.neutral) (front : Bool) :
     Inv (park s t x front) ∧ WaitInv (park s t x front) := by
   have m : Moves s (park s t x front) t x0.pc .waiting :=
-    Moves.mk' (y := { x with pc := .waiting, fut := .pending }) hx hk rfl rfl rfl rfl
+    Moves.mk' (y := { x with pc := .waiting, fut := .pending, tr := suspendAt s 1 .qstart }) hx hk rfl rfl rfl rfl
   refine ⟨h.same m rfl rfl (fun hc => (h.closed_empty hc).2.2) (Or.inr (Or.inl ⟨hn, by simp [Pc.neutral]⟩)), ?_⟩
   apply hw.moves m _ (Or.inr rfl)
   intro u hu
@@ -593,9 +592,9 @@ theorem inv_park {s : St} {t : Tid} {x x0 : Task} (h : Inv s) (hw : WaitInv s) (
     · exact Or.inr ⟨by simpa using e, rfl⟩
 
 theorem inv_after_get {s : St} {t : Tid} {x : Task} (h : Inv s) (hw : WaitInv s) (hx : s.tasks[t]? = some x)
-    (hn : x.pc.neutral) (htw : t ∉ s.waitq) (hcap : hasCap s x.key = true) (hf : (tryGet s t x).snd = false) :
-    Inv (reserve Fixes.all (tryGet s t x).fst t x) ∧ WaitInv (reserve Fixes.all (tryGet s t x).fst t x) := by
-  have h1 := inv_tryGet h hw hx hn hcap htw
+    (hn : x.pc.neutral) (htw : t ∉ s.waitq) (hcap : hasCap s x.key = true) {b : Bool} (hf : (tryGet s t x b).snd = false) :
+    Inv (reserve Fixes.all (tryGet s t x b).fst t x) ∧ WaitInv (reserve Fixes.all (tryGet s t x b).fst t x) := by
+  have h1 := inv_tryGet h hw hx hn hcap htw b
   rw [tryGet_false hf] at h1 ⊢
   exact inv_reserve h1.1 h1.2 hx hn hcap htw
 
@@ -608,13 +607,13 @@ theorem inv_enter {s : St} {t : Tid} {x : Task} (h : Inv s) (hw : WaitInv s) (hx
     exact inv_park (h.core c) (hw.core c (releaseWaiter_waitq s)) hx' hk.symm (by rw [hp]; exact hn) true
   · exact inv_park h hw hx rfl hn false
   · split
-    · exact inv_tryGet h hw hx hn hcap htw
+    · exact inv_tryGet h hw hx hn hcap htw false
     · next hf => exact inv_after_get h hw hx hn htw hcap (by simpa using hf)
   · split
-    · exact inv_tryGet h hw hx hn hcap htw
+    · exact inv_tryGet h hw hx hn hcap htw true
     · next hf =>
-      have hf' : (tryGet s t x).snd = false := by simpa using hf
-      have : hasCap (tryGet s t x).fst x.key = true := by rw [tryGet_false hf']; exact hcap
+      have hf' : (tryGet s t x true).snd = false := by simpa using hf
+      have : hasCap (tryGet s t x true).fst x.key = true := by rw [tryGet_false hf']; exact hcap
       simp only [this, if_true]
       exact inv_after_get h hw hx hn htw hcap hf'
 
@@ -649,105 +648,11 @@ theorem inv_releaseAcquired_after {s : St} {t : Tid} {x y : Task} {sl : Slot} (h
     have m : Moves s (setTask s t y) t x.pc y.pc := Moves.mk' hx hk rfl rfl rfl rfl
     exact ⟨h.same m rfl rfl (fun hc => (h.closed_empty hc).2.2) (Or.inl hcl), hw.moves m (fun u hu => Or.inl hu) (Or.inl htw)⟩
 
-theorem inv_resume {s : St} {t : Tid} {x : Task} (h : Inv s) (hw : WaitInv s) (hx : s.tasks[t]? = some x) :
-    Inv (resume Fixes.all s t x) ∧ WaitInv (resume Fixes.all s t x) := by
-  unfold resume
-  split
-  · next hpc =>
-    have hn : x.pc.neutral := by rw [hpc]; simp [Pc.neutral]
-    have htw : t ∉ s.waitq := by
-      intro hm; have := hw t hm; rw [pcOf_of_get hx, hpc] at this; cases this
-    split
-    · have m : Moves s (setTask s t { x with pc := .failed .cancelled }) t x.pc (.failed .cancelled) :=
-        Moves.mk' (y := { x with pc := .failed .cancelled }) hx rfl rfl rfl rfl rfl
-      exact ⟨h.same m rfl rfl (fun hc => (h.closed_empty hc).2.2) (Or.inr (Or.inl ⟨hn, by simp [Pc.neutral]⟩)),
-        hw.moves m (fun u hu => Or.inl hu) (Or.inl htw)⟩
-    · exact inv_enter h hw hx hn htw true
-  · next hpc =>
-    have hn : x.pc.neutral := by rw [hpc]; simp [Pc.neutral]
-    split
-    · exact ⟨h, hw⟩
-    · have c := unpark_core s t x.key
-      have h1 := h.core c
-      have w1 : WaitInv (unpark s t x.key) := hw.core c (by intro u hu; rw [unpark_waitq] at hu; exact (mem_sremove.mp hu).1)
-      have htw : t ∉ (unpark s t x.key).waitq := by rw [unpark_waitq]; intro hm; exact (mem_sremove.mp hm).2 rfl
-      have hx1 : (unpark s t x.key).tasks[t]? = some x := hx
-      dsimp only
-      split
-      · have m : Moves (unpark s t x.key) (setTask (unpark s t x.key) t { x with pc := .failed (failKind x) }) t x.pc (.failed (failKind x)) :=
-          Moves.mk' (y := { x with pc := .failed (failKind x) }) hx1 rfl rfl rfl rfl rfl
-        have h2 := h1.same m rfl rfl (fun hc => (h1.closed_empty hc).2.2) (Or.inr (Or.inl ⟨hn, by simp [Pc.neutral]⟩))
-        have w2 := w1.moves m (fun u hu => Or.inl hu) (Or.inl htw)
-        split
-        · exact ⟨h2.core (releaseWaiter_core _), w2.core (releaseWaiter_core _) (releaseWaiter_waitq _)⟩
-        · exact ⟨h2, w2⟩
-      · exact inv_enter h1 w1 hx1 hn htw false
-  · next res hpc =>
-    split
-    · exact inv_releaseAcquired_after (y := { x with pc := .failed (failKind x) }) h hw hx rfl (by simp [Pc.neutral]) (Or.inl ⟨res, rfl, hpc⟩)
-    · split
-      · exact ⟨h, hw⟩
-      · exact inv_releaseAcquired_after (y := { x with pc := .failed .oserr }) h hw hx rfl (by simp [Pc.neutral]) (Or.inl ⟨_, rfl, hpc⟩)
-      · dsimp only
-        have htw : t ∉ s.waitq := by
-          intro hm; have := hw t hm; rw [pcOf_of_get hx, hpc] at this; cases this
-        by_cases hcl0 : s.closed = true
-        rotate_left
-        · have hcl : s.closed = false := by cases e : s.closed <;> simp_all
-          rw [if_neg hcl0]
-          have m1 : Moves s (dropSlot (setTask s t { x with pc := .done }) x.key (.ph t)) t x.pc .done :=
-            Moves.mk' (y := { x with pc := .done }) hx rfl rfl rfl rfl rfl
-          have hi := h.remove m1 hcl (by simp [Pc.neutral]) (Or.inl ⟨_, rfl, hpc⟩) rfl (by rw [keyOf_of_get hx]; rfl)
-          have wi := hw.moves m1 (fun u hu => Or.inl hu) (Or.inl htw)
-          have hlt := lt_of_get hx
-          have hxi : (dropSlot (setTask s t { x with pc := .done }) x.key (.ph t)).tasks[t]? = some { x with pc := .done } := by
-            simp [dropSlot, setTask, hlt]
-          have hpres := h.ph_present hcl t _ (by rw [pcOf_of_get hx, hpc])
-          rw [keyOf_of_get hx] at hpres
-          have hcap : hasCap (dropSlot (setTask s t { x with pc := .done }) x.key (.ph t))
-              (keyOf (dropSlot (setTask s t { x with pc := .done }) x.key (.ph t)) t) = true := by
-            rw [keyOf_of_get hxi]
-            unfold hasCap hostCount dropSlot
-            simp only [Bool.and_eq_true, Bool.or_eq_true, decide_eq_true_eq]
-            constructor
-            · rcases h.lim with h1 | h1
-              · exact Or.inl h1
-              · right; have := length_sremove_lt hpres.1; show (sremove (Slot.ph t) s.acquired).length < s.limit; omega
-            · by_cases hl : s.lph = 0
-              · exact Or.inl hl
-              · right
-                have hall : ∀ k, hostCount s k ≤ s.lph := by
-                  rcases h.limh with h1 | h1
-                  · exact absurd h1 hl
-                  · exact h1
-                have := countP_sremove_lt (fun y : Key × Slot => decide (y.1 = x.key)) (hpres.2 hl) (by simp)
-                have h2 := hall x.key
-                unfold hostCount at h2
-                show List.countP _ (if s.lph = 0 then s.perHost else sremove (x.key, Slot.ph t) s.perHost) < s.lph
-                simp only [hl, if_false]; omega
-          have m2 : Moves (dropSlot (setTask s t { x with pc := .done }) x.key (.ph t))
-              (setTask { s with conns := s.conns ++ [({ key := x.key } : Conn)],
-                                acquired := sinsert (Slot.conn s.conns.length) (sremove (Slot.ph t) s.acquired),
-                                perHost := if s.lph = 0 then s.perHost
-                                           else sinsert (x.key, Slot.conn s.conns.length) (sremove (x.key, Slot.ph t) s.perHost) }
-                t { x with pc := .holding s.conns.length }) t .done (.holding s.conns.length) :=
-            Moves.mk' (y := { x with pc := .holding s.conns.length }) hxi rfl (by simp [dropSlot, setTask]) rfl rfl rfl
-          refine ⟨hi.add m2 hcl hcap (by simp [Pc.neutral]) (Or.inr ⟨_, rfl, rfl⟩) rfl ?_, ?_⟩
-          · rw [keyOf_of_get hxi]; by_cases hl : s.lph = 0 <;> simp [dropSlot, setTask, hl]
-          · exact wi.moves m2 (fun u hu => Or.inl hu) (Or.inl htw)
-        · have hcl := hcl0
-          rw [if_pos hcl0]
-          have m : Moves s (setTask { s with conns := s.conns ++ [({ key := x.key, isOpen := false } : Conn)] } t
-              { x with pc := .failed .closedErr }) t x.pc (.failed .closedErr) :=
-            Moves.mk' (y := { x with pc := .failed .closedErr }) hx rfl rfl rfl rfl rfl
-          exact ⟨h.same m rfl rfl (fun hc => (h.closed_empty hc).2.2) (Or.inl hcl), hw.moves m (fun u hu => Or.inl hu) (Or.inl htw)⟩
-  · exact ⟨h, hw⟩
 
-/-- a task record changes without changing its pc or key (flags, future) and queues change -/
 theorem inv_flag {s s' : St} {t : Tid} {x y : Task} (h : Inv s) (hw : WaitInv s) (hx : s.tasks[t]? = some x)
     (ht : s'.tasks = s.tasks.set t y) (hk : y.key = x.key) (hp : y.pc = x.pc)
     (e1 : s'.limit = s.limit) (e2 : s'.lph = s.lph) (e3 : s'.acquired = s.acquired) (e4 : s'.perHost = s.perHost)
-    (e5 : s'.closed = s.closed) (e6 : s'.conns.length = s.conns.length) (e7 : s'.idle = s.idle) (e8 : s'.waitq = s.waitq) :
+    (e5 : s'.closed = s.closed) (e7 : s'.idle = s.idle) (e8 : s'.waitq = s.waitq) :
     Inv s' ∧ WaitInv s' := by
   have c : SameCore s s' := by
     have c0 := sameCore_setTask_fut (y := y) hx hk hp
@@ -760,9 +665,196 @@ theorem inv_flag {s s' : St} {t : Tid} {x y : Task} (h : Inv s) (hw : WaitInv s)
     · rw [ht]; simp
     · intro u; have := c0.pc u; unfold pcOf at *; rw [ht]; exact this
     · intro u; have := c0.key u; unfold keyOf at *; rw [ht]; exact this
-    · exact e6
     · exact e7
   exact ⟨h.core c, hw.core c (by rw [e8]; exact fun u hu => hu)⟩
+
+
+theorem inv_neutral_set {s : St} {t : Tid} {x y : Task} (h : Inv s) (hw : WaitInv s) (hx : s.tasks[t]? = some x)
+    (hk : y.key = x.key) (hn : x.pc.neutral) (hn' : y.pc.neutral) (htw : t ∉ s.waitq) :
+    Inv (setTask s t y) ∧ WaitInv (setTask s t y) := by
+  have m : Moves s (setTask s t y) t x.pc y.pc := Moves.mk' hx hk rfl rfl rfl rfl
+  exact ⟨h.same m rfl rfl (fun hc => (h.closed_empty hc).2.2) (Or.inr (Or.inl ⟨hn, hn'⟩)),
+    hw.moves m (fun u hu => Or.inl hu) (Or.inl htw)⟩
+
+theorem unpark_inv {s : St} (t : Tid) (k : Key) (h : Inv s) (hw : WaitInv s) :
+    Inv (unpark s t k) ∧ WaitInv (unpark s t k) ∧ t ∉ (unpark s t k).waitq := by
+  have c := unpark_core s t k
+  refine ⟨h.core c, hw.core c (by intro u hu; rw [unpark_waitq] at hu; exact (mem_sremove.mp hu).1), ?_⟩
+  rw [unpark_waitq]; intro hm; exact (mem_sremove.mp hm).2 rfl
+
+theorem inv_failWait {s : St} {t : Tid} {x : Task} (h : Inv s) (hw : WaitInv s) (hx : s.tasks[t]? = some x)
+    (hn : x.pc.neutral) : Inv (failWait Fixes.all s t x) ∧ WaitInv (failWait Fixes.all s t x) := by
+  obtain ⟨h1, w1, htw⟩ := unpark_inv t x.key h hw
+  have hx1 : (unpark s t x.key).tasks[t]? = some x := hx
+  have := inv_neutral_set (y := { x with pc := .failed (failKind x), tr := none }) h1 w1 hx1 rfl hn (by simp [Pc.neutral]) htw
+  unfold failWait; dsimp only; split
+  · exact ⟨this.1.core (releaseWaiter_core _), this.2.core (releaseWaiter_core _) (releaseWaiter_waitq _)⟩
+  · exact this
+
+theorem inv_finishWait {s : St} {t : Tid} {x : Task} (h : Inv s) (hw : WaitInv s) (hx : s.tasks[t]? = some x)
+    (hn : x.pc.neutral) : Inv (finishWait Fixes.all s t x) ∧ WaitInv (finishWait Fixes.all s t x) := by
+  obtain ⟨h1, w1, htw⟩ := unpark_inv t x.key h hw
+  exact inv_enter h1 w1 (show (unpark s t x.key).tasks[t]? = some x from hx) hn htw false
+
+theorem inv_afterFut {s : St} {t : Tid} {x : Task} (h : Inv s) (hw : WaitInv s) (hx : s.tasks[t]? = some x)
+    (hp : x.pc = .waiting) : Inv (afterFut Fixes.all s t x) ∧ WaitInv (afterFut Fixes.all s t x) := by
+  have hn : x.pc.neutral := by rw [hp]; simp [Pc.neutral]
+  unfold afterFut; split
+  · exact inv_failWait h hw hx hn
+  · split
+    · exact inv_flag h hw hx rfl rfl rfl rfl rfl rfl rfl rfl rfl rfl
+    · exact inv_finishWait h hw hx hn
+
+theorem inv_swapOrClosed {s : St} {t : Tid} {x : Task} {r : Option Bool} (h : Inv s) (hw : WaitInv s)
+    (hx : s.tasks[t]? = some x) (hpc : x.pc = .creating r) (c : Cid) :
+    Inv (swapOrClosed s t x c) ∧ WaitInv (swapOrClosed s t x c) := by
+  have htw : t ∉ s.waitq := by
+    intro hm; have := hw t hm; rw [pcOf_of_get hx, hpc] at this; cases this
+  unfold swapOrClosed
+  by_cases hcl0 : s.closed = true
+  · rw [if_pos hcl0]
+    have m : Moves s (setTask (closeConn s c) t { x with pc := .failed .closedErr }) t x.pc (.failed .closedErr) :=
+      Moves.mk' (y := { x with pc := .failed .closedErr }) hx rfl rfl rfl rfl rfl
+    exact ⟨h.same m rfl rfl (fun hc => (h.closed_empty hc).2.2) (Or.inl hcl0), hw.moves m (fun u hu => Or.inl hu) (Or.inl htw)⟩
+  · have hcl : s.closed = false := by cases e : s.closed <;> simp_all
+    rw [if_neg hcl0]
+    have m1 : Moves s (dropSlot (setTask s t { x with pc := .done }) x.key (.ph t)) t x.pc .done :=
+      Moves.mk' (y := { x with pc := .done }) hx rfl rfl rfl rfl rfl
+    have hi := h.remove m1 hcl (by simp [Pc.neutral]) (Or.inl ⟨_, rfl, hpc⟩) rfl (by rw [keyOf_of_get hx]; rfl)
+    have wi := hw.moves m1 (fun u hu => Or.inl hu) (Or.inl htw)
+    have hlt := lt_of_get hx
+    have hxi : (dropSlot (setTask s t { x with pc := .done }) x.key (.ph t)).tasks[t]? = some { x with pc := .done } := by
+      simp [dropSlot, setTask, hlt]
+    have hpres := h.ph_present hcl t _ (by rw [pcOf_of_get hx, hpc])
+    rw [keyOf_of_get hx] at hpres
+    have hcap : hasCap (dropSlot (setTask s t { x with pc := .done }) x.key (.ph t))
+        (keyOf (dropSlot (setTask s t { x with pc := .done }) x.key (.ph t)) t) = true := by
+      rw [keyOf_of_get hxi]
+      unfold hasCap hostCount dropSlot
+      simp only [Bool.and_eq_true, Bool.or_eq_true, decide_eq_true_eq]
+      constructor
+      · rcases h.lim with h1 | h1
+        · exact Or.inl h1
+        · right; have := length_sremove_lt hpres.1; show (sremove (Slot.ph t) s.acquired).length < s.limit; omega
+      · by_cases hl : s.lph = 0
+        · exact Or.inl hl
+        · right
+          have hall : ∀ k, hostCount s k ≤ s.lph := by
+            rcases h.limh with h1 | h1
+            · exact absurd h1 hl
+            · exact h1
+          have := countP_sremove_lt (fun y : Key × Slot => decide (y.1 = x.key)) (hpres.2 hl) (by simp)
+          have h2 := hall x.key
+          unfold hostCount at h2
+          show List.countP _ (if s.lph = 0 then s.perHost else sremove (x.key, Slot.ph t) s.perHost) < s.lph
+          simp only [hl, if_false]; omega
+    have m2 : Moves (dropSlot (setTask s t { x with pc := .done }) x.key (.ph t))
+        (setTask { s with acquired := sinsert (Slot.conn c) (sremove (Slot.ph t) s.acquired),
+                          perHost := if s.lph = 0 then s.perHost
+                                     else sinsert (x.key, Slot.conn c) (sremove (x.key, Slot.ph t) s.perHost) }
+          t { x with pc := .holding c }) t .done (.holding c) :=
+      Moves.mk' (y := { x with pc := .holding c }) hxi rfl (by simp [dropSlot, setTask]) rfl rfl rfl
+    refine ⟨hi.add m2 hcl hcap (by simp [Pc.neutral]) (Or.inr ⟨_, rfl, rfl⟩) rfl ?_, ?_⟩
+    · rw [keyOf_of_get hxi]; by_cases hl : s.lph = 0 <;> simp [dropSlot, setTask, hl]
+    · exact wi.moves m2 (fun u hu => Or.inl hu) (Or.inl htw)
+
+theorem sameCore_closeConn (s : St) (c : Cid) : SameCore s (closeConn s c) := by
+  constructor <;> intros <;> rfl
+
+theorem inv_resumeTrace {s : St} {t : Tid} {x : Task} (h : Inv s) (hw : WaitInv s) (hx : s.tasks[t]? = some x) (hk : Hook) :
+    Inv (resumeTrace Fixes.all s t x hk) ∧ WaitInv (resumeTrace Fixes.all s t x hk) := by
+  unfold resumeTrace
+  dsimp only
+  split
+  · -- reuse
+    split
+    · next c hpc =>
+      split
+      · have := inv_releaseAcquired_after (y := { x with pc := .failed (failKind x) }) (sl := .conn c) h hw hx rfl
+          (by simp [Pc.neutral]) (Or.inr ⟨c, rfl, hpc⟩)
+        simp only [Fixes.all, if_true]
+        exact ⟨this.1.core (sameCore_closeConn _ c), this.2.core (sameCore_closeConn _ c) (fun u hu => hu)⟩
+      · exact ⟨h, hw⟩
+    · exact ⟨h, hw⟩
+  · -- qstart
+    split
+    · next hpc =>
+      have hn : x.pc.neutral := by rw [hpc]; simp [Pc.neutral]
+      split
+      · exact inv_failWait h hw hx hn
+      · split
+        · exact ⟨h, hw⟩
+        · exact inv_afterFut h hw hx hpc
+    · exact ⟨h, hw⟩
+  · -- qend
+    split
+    · next hpc =>
+      have hn : x.pc.neutral := by rw [hpc]; simp [Pc.neutral]
+      split
+      · exact inv_failWait h hw hx hn
+      · exact inv_finishWait h hw hx hn
+    · exact ⟨h, hw⟩
+  · -- cstart
+    split
+    · next r hpc =>
+      split
+      · exact inv_releaseAcquired_after (y := { x with pc := .failed (failKind x) }) h hw hx rfl (by simp [Pc.neutral]) (Or.inl ⟨r, rfl, hpc⟩)
+      · exact ⟨h, hw⟩
+    · exact ⟨h, hw⟩
+  · -- cend
+    next c =>
+    have cc : SameCore s { s with pendingNew := sremove c s.pendingNew } := by constructor <;> intros <;> rfl
+    have h1 := h.core cc
+    have w1 : WaitInv { s with pendingNew := sremove c s.pendingNew } := hw.core cc (fun u hu => hu)
+    have hx1 : ({ s with pendingNew := sremove c s.pendingNew } : St).tasks[t]? = some x := hx
+    split
+    · next r hpc =>
+      split
+      · have := inv_releaseAcquired_after (y := { x with pc := .failed (failKind x) }) (sl := .ph t) h1 w1 hx1 rfl
+          (by simp [Pc.neutral]) (Or.inl ⟨r, rfl, hpc⟩)
+        simp only [Fixes.all, if_true]
+        exact ⟨this.1.core (sameCore_closeConn _ c), this.2.core (sameCore_closeConn _ c) (fun u hu => hu)⟩
+      · exact inv_swapOrClosed h1 w1 hx1 hpc c
+    · exact ⟨h, hw⟩
+
+theorem inv_resume {s : St} {t : Tid} {x : Task} (h : Inv s) (hw : WaitInv s) (hx : s.tasks[t]? = some x) :
+    Inv (resume Fixes.all s t x) ∧ WaitInv (resume Fixes.all s t x) := by
+  unfold resume
+  split
+  · next hk r htr =>
+    split
+    · exact ⟨h, hw⟩
+    · have c := sameCore_setTask_fut (y := { x with tr := none }) hx rfl rfl
+      have hx1 : (setTask s t { x with tr := none }).tasks[t]? = some { x with tr := none } := by
+        simp [setTask, lt_of_get hx]
+      exact inv_resumeTrace (h.core c) (hw.core c (fun u hu => hu)) hx1 hk
+  · split
+    · next hpc =>
+      have hn : x.pc.neutral := by rw [hpc]; simp [Pc.neutral]
+      have htw : t ∉ s.waitq := by
+        intro hm; have := hw t hm; rw [pcOf_of_get hx, hpc] at this; cases this
+      split
+      · exact inv_neutral_set (y := { x with pc := .failed .cancelled }) h hw hx rfl hn (by simp [Pc.neutral]) htw
+      · exact inv_enter h hw hx hn htw true
+    · next hpc =>
+      split
+      · exact ⟨h, hw⟩
+      · exact inv_afterFut h hw hx hpc
+    · next res hpc =>
+      split
+      · exact inv_releaseAcquired_after (y := { x with pc := .failed (failKind x) }) h hw hx rfl (by simp [Pc.neutral]) (Or.inl ⟨res, rfl, hpc⟩)
+      · split
+        · exact ⟨h, hw⟩
+        · exact inv_releaseAcquired_after (y := { x with pc := .failed .oserr }) h hw hx rfl (by simp [Pc.neutral]) (Or.inl ⟨_, rfl, hpc⟩)
+        · dsimp only
+          have cc : SameCore s { s with conns := s.conns ++ [({ key := x.key } : Conn)] } := by constructor <;> intros <;> rfl
+          have h1 := h.core cc
+          have w1 : WaitInv { s with conns := s.conns ++ [({ key := x.key } : Conn)] } := hw.core cc (fun u hu => hu)
+          have hx1 : ({ s with conns := s.conns ++ [({ key := x.key } : Conn)] } : St).tasks[t]? = some x := hx
+          split
+          · exact inv_flag (s := s) h hw hx rfl rfl rfl rfl rfl rfl rfl rfl rfl rfl
+          · exact inv_swapOrClosed h1 w1 hx1 hpc _
+    · exact ⟨h, hw⟩
 
 theorem inv_cancelTask {s : St} {t : Tid} {x : Task} (h : Inv s) (hw : WaitInv s) (hx : s.tasks[t]? = some x) (b : Bool) :
     Inv (cancelTask s t x b) ∧ WaitInv (cancelTask s t x b) := by
@@ -770,7 +862,7 @@ theorem inv_cancelTask {s : St} {t : Tid} {x : Task} (h : Inv s) (hw : WaitInv s
   all_goals repeat' split
   all_goals first
     | exact ⟨h, hw⟩
-    | exact inv_flag h hw hx rfl rfl rfl rfl rfl rfl rfl rfl rfl rfl rfl
+    | exact inv_flag h hw hx rfl rfl rfl rfl rfl rfl rfl rfl rfl rfl
 
 theorem foldl_closeConn_closed (l : List Cid) (s : St) : (l.foldl closeConn s).closed = s.closed := by
   induction l generalizing s with
@@ -854,7 +946,7 @@ theorem inv_step {s : St} (h : Inv s) (hw : WaitInv s) (l : Label) :
     · next x hx =>
       split
       · next hpc =>
-        have hpc' : x.pc = .creating none := by simp at hpc; exact hpc.1.1
+        have hpc' : x.pc = .creating none := by simp at hpc; exact hpc.1.1.1
         exact inv_pc (y := { x with pc := .creating (some ok) }) h hw hx rfl rfl rfl rfl rfl rfl rfl rfl rfl
           (not_waiting_notin hw hx (by rw [hpc']; simp)) (Or.inr ⟨_, _, hpc', rfl⟩)
       · exact ⟨h, hw⟩
@@ -872,6 +964,8 @@ theorem inv_step {s : St} (h : Inv s) (hw : WaitInv s) (l : Label) :
     · next x hx =>
       split
       · next c hpc =>
+        split
+        · exact ⟨h, hw⟩
         by_cases hcl : s.closed = true
         · have : (setTask s t { x with pc := .done }).closed = true := hcl
           rw [if_pos this]
@@ -906,8 +1000,18 @@ theorem inv_step {s : St} (h : Inv s) (hw : WaitInv s) (l : Label) :
   | shuffle p =>
     have cc : SameCore s { s with perm := p } := by constructor <;> intros <;> rfl
     exact ⟨h.core cc, hw.core cc (fun u hu => hu)⟩
+  | traceDone t =>
+    simp only [step]; split
+    · next x hx =>
+      split
+      · split
+        · exact inv_flag h hw hx rfl rfl rfl rfl rfl rfl rfl rfl rfl rfl
+        · exact ⟨h, hw⟩
+      · exact ⟨h, hw⟩
+    · exact ⟨h, hw⟩
 
-theorem inv_init (limit lph : Nat) (keys : List Key) : Inv (init limit lph keys) ∧ WaitInv (init limit lph keys) := by
+theorem inv_init (limit lph : Nat) (keys : List Key) (mask : Nat) :
+    Inv (init limit lph keys mask) ∧ WaitInv (init limit lph keys mask) := by
   refine ⟨?_, ?_⟩
   · constructor
     · intro _ t r hp
@@ -931,33 +1035,40 @@ theorem inv_run {s : St} (h : Inv s) (hw : WaitInv s) (ls : List Label) :
     have := inv_step h hw l
     exact ih this.1 this.2
 
-/-! ## connections: every open connection is pooled or in use; a closed connector queues nobody -/
 
-def OInv (s : St) : Prop := ∀ c, connOpen s c = true → c ∈ s.idle ∨ Slot.conn c ∈ s.acquired
+/-! ## connections: every open connection is pooled, in use, or still in `connect()`'s hands inside an
+on_connection_create_end callback; a closed connector queues nobody -/
+
+def OInv (s : St) : Prop :=
+  ∀ c, connOpen s c = true → c ∈ s.idle ∨ Slot.conn c ∈ s.acquired ∨ c ∈ s.pendingNew
 def QInv (s : St) : Prop := s.closed = true → s.waitq = []
 
-theorem wake_conns (s : St) (t : Tid) : (wake s t).conns = s.conns := by
-  unfold wake; split <;> rfl
-theorem releaseWaiterKeys_conns (ks : List Key) : ∀ s : St, (releaseWaiterKeys s ks).conns = s.conns := by
+/-- the parts of the state `OInv` reads besides the core -/
+def Rest (s s' : St) : Prop := s'.conns = s.conns ∧ s'.pendingNew = s.pendingNew
+
+theorem wake_rest (s : St) (t : Tid) : Rest s (wake s t) := by
+  unfold wake; split <;> exact ⟨rfl, rfl⟩
+theorem releaseWaiterKeys_rest (ks : List Key) : ∀ s : St, Rest s (releaseWaiterKeys s ks) := by
   induction ks with
-  | nil => intro s; rfl
+  | nil => intro s; exact ⟨rfl, rfl⟩
   | cons k ks ih =>
     intro s; unfold releaseWaiterKeys; split
     · dsimp only; split
-      · rw [wake_conns]
-      · rw [ih]
+      · exact wake_rest _ _
+      · exact ih _
     · exact ih s
-theorem releaseWaiter_conns (s : St) : (releaseWaiter s).conns = s.conns := releaseWaiterKeys_conns _ s
+theorem releaseWaiter_rest (s : St) : Rest s (releaseWaiter s) := releaseWaiterKeys_rest _ s
+theorem releaseWaiter_conns (s : St) : (releaseWaiter s).conns = s.conns := (releaseWaiter_rest s).1
 
 theorem connOpen_congr {s s' : St} (h : s'.conns = s.conns) (c : Cid) : connOpen s' c = connOpen s c := by
   unfold connOpen; rw [h]
 
 theorem OInv.of_eq {s s' : St} (h : OInv s) (e1 : s'.conns = s.conns) (e2 : s'.idle = s.idle)
-    (e3 : s'.acquired = s.acquired) : OInv s' := by
-  intro c hc; rw [connOpen_congr e1] at hc; rw [e2, e3]; exact h c hc
+    (e3 : s'.acquired = s.acquired) (e4 : s'.pendingNew = s.pendingNew) : OInv s' := by
+  intro c hc; rw [connOpen_congr e1] at hc; rw [e2, e3, e4]; exact h c hc
 
-theorem OInv.core {s s' : St} (h : OInv s) (c : SameCore s s') (e1 : s'.conns = s.conns) : OInv s' :=
-  h.of_eq e1 c.idle c.acquired
+theorem OInv.core {s s' : St} (h : OInv s) (c : SameCore s s') (e : Rest s s') : OInv s' :=
+  h.of_eq e.1 c.idle c.acquired e.2
 theorem QInv.core {s s' : St} (h : QInv s) (c : SameCore s s') (hw : ∀ u ∈ s'.waitq, u ∈ s.waitq) : QInv s' := by
   intro hc; rw [c.closed] at hc
   have := h hc
@@ -1007,41 +1118,44 @@ theorem popIdle_spec (s : St) (k : Key) (l : List Cid) :
         · subst e; simp
         · exact List.mem_cons_of_mem _ (ih.2 c e)
 
-theorem oinv_tryGet {s : St} {t : Tid} {x : Task} (h : OInv s) (hq : QInv s) :
-    OInv (tryGet s t x).1 ∧ QInv (tryGet s t x).1 := by
+theorem oinv_tryGet {s : St} {t : Tid} {x : Task} {b : Bool} (h : OInv s) (hq : QInv s) :
+    OInv (tryGet s t x b).1 ∧ QInv (tryGet s t x b).1 := by
   have sp := popIdle_spec s x.key s.idle
   unfold tryGet; dsimp only; split
   · next hn =>
     refine ⟨?_, hq⟩
     intro c hc
-    rcases h c hc with h1 | h1
+    rcases h c hc with h1 | h1 | h1
     · rcases sp.1 c h1 with h2 | h2 | h2
       · exact Or.inl h2
       · rw [hn] at h2; cases h2
       · have : connOpen s c = true := hc
         rw [h2] at this; cases this
-    · exact Or.inr h1
+    · exact Or.inr (Or.inl h1)
+    · exact Or.inr (Or.inr h1)
   · next c0 hn =>
     refine ⟨?_, hq⟩
     intro c hc
     have hc' : connOpen s c = true := hc
-    show c ∈ (popIdle s x.key s.idle).2 ∨ Slot.conn c ∈ sinsert (Slot.conn c0) s.acquired
-    rcases h c hc' with h1 | h1
+    show c ∈ (popIdle s x.key s.idle).2 ∨ Slot.conn c ∈ sinsert (Slot.conn c0) s.acquired ∨ c ∈ s.pendingNew
+    rcases h c hc' with h1 | h1 | h1
     · rcases sp.1 c h1 with h2 | h2 | h2
       · exact Or.inl h2
-      · rw [hn] at h2; cases h2; exact Or.inr (mem_sinsert.mpr (Or.inl rfl))
+      · rw [hn] at h2; cases h2; exact Or.inr (Or.inl (mem_sinsert.mpr (Or.inl rfl)))
       · rw [h2] at hc'; cases hc'
-    · exact Or.inr (mem_sinsert.mpr (Or.inr h1))
+    · exact Or.inr (Or.inl (mem_sinsert.mpr (Or.inr h1)))
+    · exact Or.inr (Or.inr h1)
 
 theorem oinv_reserve {s : St} {t : Tid} {x : Task} (h : OInv s) (hq : QInv s) :
     OInv (reserve Fixes.all s t x) ∧ QInv (reserve Fixes.all s t x) := by
   unfold reserve; split
-  · exact ⟨h.of_eq rfl rfl rfl, hq⟩
+  · exact ⟨h.of_eq rfl rfl rfl rfl, hq⟩
   · refine ⟨?_, hq⟩
     intro c hc
-    rcases h c hc with h1 | h1
+    rcases h c hc with h1 | h1 | h1
     · exact Or.inl h1
-    · exact Or.inr (mem_sinsert.mpr (Or.inr h1))
+    · exact Or.inr (Or.inl (mem_sinsert.mpr (Or.inr h1)))
+    · exact Or.inr (Or.inr h1)
 
 theorem hasCap_closed {s : St} (h : Inv s) (hc : s.closed = true) (k : Key) : hasCap s k = true := by
   obtain ⟨e1, e2, _⟩ := h.closed_empty hc
@@ -1051,7 +1165,7 @@ theorem hasCap_closed {s : St} (h : Inv s) (hc : s.closed = true) (k : Key) : ha
 
 theorem oinv_park {s : St} {t : Tid} {x : Task} (h : OInv s) (hc : s.closed = false) (b : Bool) :
     OInv (park s t x b) ∧ QInv (park s t x b) :=
-  ⟨h.of_eq rfl rfl rfl, fun hc' => by rw [show (park s t x b).closed = s.closed from rfl, hc] at hc'; cases hc'⟩
+  ⟨h.of_eq rfl rfl rfl rfl, fun hc' => by rw [show (park s t x b).closed = s.closed from rfl, hc] at hc'; cases hc'⟩
 
 theorem oinv_enter {s : St} {t : Tid} {x : Task} (hi : Inv s) (h : OInv s) (hq : QInv s) (first : Bool) :
     OInv (enter Fixes.all s t x first) ∧ QInv (enter Fixes.all s t x first) := by
@@ -1062,19 +1176,19 @@ theorem oinv_enter {s : St} {t : Tid} {x : Task} (hi : Inv s) (h : OInv s) (hq :
       · rw [hasCap_closed hi e] at hcap; cases hcap
     cases first <;> simp [enter, Fixes.all, hcap]
     · have c := releaseWaiter_core s
-      exact oinv_park (h.core c (releaseWaiter_conns s)) (by rw [c.closed]; exact hcl) true
+      exact oinv_park (h.core c (releaseWaiter_rest s)) (by rw [c.closed]; exact hcl) true
     · exact oinv_park h hcl false
   · cases first <;> simp [enter, Fixes.all, hcap]
     · split
       · exact oinv_tryGet h hq
-      · have := oinv_tryGet (t := t) (x := x) h hq; exact oinv_reserve this.1 this.2
+      · have := oinv_tryGet (t := t) (x := x) (b := false) h hq; exact oinv_reserve this.1 this.2
     · split
       · exact oinv_tryGet h hq
       · next hf =>
-        have hf' : (tryGet s t x).snd = false := by simpa using hf
-        have : hasCap (tryGet s t x).fst x.key = true := by rw [tryGet_false hf']; exact hcap
+        have hf' : (tryGet s t x true).snd = false := by simpa using hf
+        have : hasCap (tryGet s t x true).fst x.key = true := by rw [tryGet_false hf']; exact hcap
         simp only [this, if_true]
-        have := oinv_tryGet (t := t) (x := x) h hq; exact oinv_reserve this.1 this.2
+        have := oinv_tryGet (t := t) (x := x) (b := true) h hq; exact oinv_reserve this.1 this.2
 
 theorem oinv_releaseAcquired {s : St} {k : Key} {sl : Slot} (h : OInv s) (hq : QInv s)
     (hsl : ∀ c, sl = .conn c → connOpen s c = true → c ∈ s.idle) :
@@ -1084,94 +1198,237 @@ theorem oinv_releaseAcquired {s : St} {k : Key} {sl : Slot} (h : OInv s) (hq : Q
   · have c := releaseWaiter_core (dropSlot s k sl)
     have o1 : OInv (dropSlot s k sl) := by
       intro c hc
-      rcases h c hc with h1 | h1
+      rcases h c hc with h1 | h1 | h1
       · exact Or.inl h1
       · by_cases e : sl = .conn c
         · exact Or.inl (hsl c e hc)
-        · exact Or.inr (mem_sremove.mpr ⟨h1, fun e' => e e'.symm⟩)
+        · exact Or.inr (Or.inl (mem_sremove.mpr ⟨h1, fun e' => e e'.symm⟩))
+      · exact Or.inr (Or.inr h1)
     have q1 : QInv (dropSlot s k sl) := hq
-    exact ⟨o1.core c (releaseWaiter_conns _), q1.core c (releaseWaiter_waitq _)⟩
+    exact ⟨o1.core c (releaseWaiter_rest _), q1.core c (releaseWaiter_waitq _)⟩
 
 theorem releaseAcquired_fields (s : St) (k : Key) (sl : Slot) :
     (releaseAcquired s k sl).conns = s.conns ∧ (releaseAcquired s k sl).idle = s.idle
     ∧ (releaseAcquired s k sl).closed = s.closed
     ∧ (∀ x ∈ s.acquired, x ≠ sl → x ∈ (releaseAcquired s k sl).acquired)
-    ∧ (∀ u ∈ (releaseAcquired s k sl).waitq, u ∈ s.waitq) := by
+    ∧ (∀ u ∈ (releaseAcquired s k sl).waitq, u ∈ s.waitq)
+    ∧ (releaseAcquired s k sl).pendingNew = s.pendingNew := by
   rw [releaseAcquired_eq]; split
-  · exact ⟨rfl, rfl, rfl, fun x hx _ => hx, fun u hu => hu⟩
+  · exact ⟨rfl, rfl, rfl, fun x hx _ => hx, fun u hu => hu, rfl⟩
   · have c := releaseWaiter_core (dropSlot s k sl)
-    refine ⟨releaseWaiter_conns _, c.idle, c.closed, ?_, releaseWaiter_waitq _⟩
+    refine ⟨releaseWaiter_conns _, c.idle, c.closed, ?_, releaseWaiter_waitq _, (releaseWaiter_rest _).2⟩
     intro x hx hne; rw [c.acquired]; exact mem_sremove.mpr ⟨hx, hne⟩
 
 theorem oinv_setTask {s : St} (t : Tid) (y : Task) (h : OInv s) (hq : QInv s) :
-    OInv (setTask s t y) ∧ QInv (setTask s t y) := ⟨h.of_eq rfl rfl rfl, hq⟩
+    OInv (setTask s t y) ∧ QInv (setTask s t y) := ⟨h.of_eq rfl rfl rfl rfl, hq⟩
 
-theorem oinv_resume {s : St} {t : Tid} {x : Task} (hi : Inv s) (h : OInv s) (hq : QInv s) :
+
+/-- `OInv` for every connection but `c` -/
+def OInvEx (s : St) (c : Cid) : Prop :=
+  ∀ d, d ≠ c → connOpen s d = true → d ∈ s.idle ∨ Slot.conn d ∈ s.acquired ∨ d ∈ s.pendingNew
+
+theorem connOpen_append {s : St} {n : Conn} {d : Cid}
+    (h : connOpen { s with conns := s.conns ++ [n] } d = true) : connOpen s d = true ∨ d = s.conns.length := by
+  unfold connOpen at h ⊢
+  by_cases e : d < s.conns.length
+  · left; simp only [] at h; rw [List.getElem?_append_left e] at h; exact h
+  · right
+    have e2 : s.conns.length ≤ d := Nat.le_of_not_lt e
+    by_cases e3 : d = s.conns.length
+    · exact e3
+    · exfalso
+      simp only [] at h
+      rw [List.getElem?_append_right e2] at h
+      have : d - s.conns.length ≠ 0 := by
+        intro h0; exact e3 (Nat.le_antisymm (Nat.le_of_sub_eq_zero h0) e2)
+      cases hh : d - s.conns.length
+      · exact this hh
+      · simp [hh] at h
+
+theorem oinv_failWait {s : St} {t : Tid} {x : Task} (hi : Inv s) (h : OInv s) (hq : QInv s) :
+    OInv (failWait Fixes.all s t x) ∧ QInv (failWait Fixes.all s t x) := by
+  have c := unpark_core s t x.key
+  have o1 : OInv (unpark s t x.key) := h.of_eq rfl rfl rfl rfl
+  have q1 : QInv (unpark s t x.key) := hq.core c (by intro u hu; rw [unpark_waitq] at hu; exact (mem_sremove.mp hu).1)
+  have := oinv_setTask t { x with pc := .failed (failKind x), tr := none } o1 q1
+  unfold failWait; dsimp only; split
+  · have c2 := releaseWaiter_core (setTask (unpark s t x.key) t { x with pc := .failed (failKind x), tr := none })
+    exact ⟨this.1.core c2 (releaseWaiter_rest _), this.2.core c2 (releaseWaiter_waitq _)⟩
+  · exact this
+
+theorem oinv_finishWait {s : St} {t : Tid} {x : Task} (hi : Inv s) (h : OInv s) (hq : QInv s) :
+    OInv (finishWait Fixes.all s t x) ∧ QInv (finishWait Fixes.all s t x) := by
+  have c := unpark_core s t x.key
+  have o1 : OInv (unpark s t x.key) := h.of_eq rfl rfl rfl rfl
+  have q1 : QInv (unpark s t x.key) := hq.core c (by intro u hu; rw [unpark_waitq] at hu; exact (mem_sremove.mp hu).1)
+  exact oinv_enter (hi.core c) o1 q1 false
+
+theorem oinv_afterFut {s : St} {t : Tid} {x : Task} (hi : Inv s) (h : OInv s) (hq : QInv s) :
+    OInv (afterFut Fixes.all s t x) ∧ QInv (afterFut Fixes.all s t x) := by
+  unfold afterFut; split
+  · exact oinv_failWait hi h hq
+  · split
+    · exact oinv_setTask _ _ h hq
+    · exact oinv_finishWait hi h hq
+
+theorem oinv_swapOrClosed {s : St} {t : Tid} {x : Task} {c : Cid} (h : OInvEx s c) (hq : QInv s) :
+    OInv (swapOrClosed s t x c) ∧ QInv (swapOrClosed s t x c) := by
+  unfold swapOrClosed; split
+  · refine ⟨?_, hq⟩
+    intro d hd
+    have hd' : connOpen (closeConn s c) d = true := hd
+    rw [connOpen_closeConn] at hd'
+    split at hd'
+    · cases hd'
+    · next ne => exact h d ne hd'
+  · refine ⟨?_, hq⟩
+    intro d hd
+    have hd' : connOpen s d = true := hd
+    show d ∈ s.idle ∨ Slot.conn d ∈ sinsert (Slot.conn c) (sremove (Slot.ph t) s.acquired) ∨ d ∈ s.pendingNew
+    by_cases e : d = c
+    · subst e; exact Or.inr (Or.inl (mem_sinsert.mpr (Or.inl rfl)))
+    · rcases h d e hd' with h1 | h1 | h1
+      · exact Or.inl h1
+      · exact Or.inr (Or.inl (mem_sinsert.mpr (Or.inr (mem_sremove.mpr ⟨h1, by intro e'; cases e'⟩))))
+      · exact Or.inr (Or.inr h1)
+
+/-- give a placeholder back, then close connection `c`: every other connection keeps its owner -/
+theorem oinv_abort_new {s : St} {t : Tid} {y : Task} {k : Key} {c : Cid} (h : OInvEx s c) (hq : QInv s) :
+    OInv (closeConn (releaseAcquired (setTask s t y) k (.ph t)) c)
+    ∧ QInv (closeConn (releaseAcquired (setTask s t y) k (.ph t)) c) := by
+  obtain ⟨f1, f2, f3, f4, f5, f6⟩ := releaseAcquired_fields (setTask s t y) k (.ph t)
+  refine ⟨?_, ?_⟩
+  · intro d hd
+    rw [connOpen_closeConn] at hd
+    split at hd
+    · cases hd
+    · next ne =>
+      have hd' : connOpen s d = true := by
+        rw [← connOpen_congr (s := s) (s' := releaseAcquired (setTask s t y) k (.ph t)) f1]; exact hd
+      show d ∈ (releaseAcquired (setTask s t y) k (.ph t)).idle ∨ _ ∨ d ∈ (releaseAcquired (setTask s t y) k (.ph t)).pendingNew
+      rw [f2, f6]
+      rcases h d ne hd' with h1 | h1 | h1
+      · exact Or.inl h1
+      · exact Or.inr (Or.inl (f4 _ h1 (by intro e'; cases e')))
+      · exact Or.inr (Or.inr h1)
+  · intro hc
+    have hc' : s.closed = true := by
+      have e : (setTask s t y).closed = s.closed := rfl
+      rw [← e, ← f3]; exact hc
+    have := hq hc'
+    apply List.eq_nil_iff_forall_not_mem.mpr
+    intro u hu; have := f5 u hu; simp_all [setTask]
+
+theorem oinv_resumeTrace {s : St} {t : Tid} {x : Task} (hi : Inv s) (h : OInv s) (hq : QInv s) (hk : Hook) :
+    OInv (resumeTrace Fixes.all s t x hk) ∧ QInv (resumeTrace Fixes.all s t x hk) := by
+  unfold resumeTrace
+  dsimp only
+  split
+  · split
+    · next c hpc =>
+      split
+      · simp only [Fixes.all, if_true]
+        -- the released connection is closed at once
+        obtain ⟨f1, f2, f3, f4, f5, f6⟩ := releaseAcquired_fields (setTask s t { x with pc := .failed (failKind x) }) x.key (.conn c)
+        refine ⟨?_, ?_⟩
+        · intro d hd
+          rw [connOpen_closeConn] at hd
+          split at hd
+          · cases hd
+          · next ne =>
+            have hd' : connOpen s d = true := by
+              rw [← connOpen_congr (s := s) (s' := releaseAcquired (setTask s t { x with pc := .failed (failKind x) }) x.key (.conn c)) f1]; exact hd
+            show d ∈ (releaseAcquired (setTask s t { x with pc := .failed (failKind x) }) x.key (.conn c)).idle ∨ _ ∨
+              d ∈ (releaseAcquired (setTask s t { x with pc := .failed (failKind x) }) x.key (.conn c)).pendingNew
+            rw [f2, f6]
+            rcases h d hd' with h1 | h1 | h1
+            · exact Or.inl h1
+            · exact Or.inr (Or.inl (f4 _ h1 (by intro e'; cases e'; exact ne rfl)))
+            · exact Or.inr (Or.inr h1)
+        · intro hc
+          have hc' : s.closed = true := by
+            have e : (setTask s t { x with pc := .failed (failKind x) }).closed = s.closed := rfl
+            rw [← e, ← f3]; exact hc
+          have := hq hc'
+          apply List.eq_nil_iff_forall_not_mem.mpr
+          intro u hu; have := f5 u hu; simp_all [setTask]
+      · exact ⟨h, hq⟩
+    · exact ⟨h, hq⟩
+  · split
+    · split
+      · exact oinv_failWait hi h hq
+      · split
+        · exact ⟨h, hq⟩
+        · exact oinv_afterFut hi h hq
+    · exact ⟨h, hq⟩
+  · split
+    · split
+      · exact oinv_failWait hi h hq
+      · exact oinv_finishWait hi h hq
+    · exact ⟨h, hq⟩
+  · split
+    · split
+      · have := oinv_setTask t { x with pc := .failed (failKind x) } h hq
+        exact oinv_releaseAcquired this.1 this.2 (fun c e => by cases e)
+      · exact ⟨h, hq⟩
+    · exact ⟨h, hq⟩
+  · next c =>
+    split
+    · have hex : OInvEx { s with pendingNew := sremove c s.pendingNew } c := by
+        intro d ne hd
+        rcases h d hd with h1 | h1 | h1
+        · exact Or.inl h1
+        · exact Or.inr (Or.inl h1)
+        · exact Or.inr (Or.inr (mem_sremove.mpr ⟨h1, ne⟩))
+      have hq1 : QInv { s with pendingNew := sremove c s.pendingNew } := hq
+      split
+      · simp only [Fixes.all, if_true]
+        exact oinv_abort_new hex hq1
+      · exact oinv_swapOrClosed hex hq1
+    · exact ⟨h, hq⟩
+theorem oinv_resume {s : St} {t : Tid} {x : Task} (hi : Inv s) (h : OInv s) (hq : QInv s) (hx : s.tasks[t]? = some x) :
     OInv (resume Fixes.all s t x) ∧ QInv (resume Fixes.all s t x) := by
   unfold resume
   split
-  · split
-    · exact oinv_setTask _ _ h hq
-    · exact oinv_enter hi h hq true
-  · split
-    · exact ⟨h, hq⟩
-    · have c := unpark_core s t x.key
-      have i1 := hi.core c
-      have o1 : OInv (unpark s t x.key) := h.of_eq rfl rfl rfl
-      have q1 : QInv (unpark s t x.key) := hq.core c (by intro u hu; rw [unpark_waitq] at hu; exact (mem_sremove.mp hu).1)
-      dsimp only
-      split
-      · have := oinv_setTask t { x with pc := .failed (failKind x) } o1 q1
-        split
-        · have c2 := releaseWaiter_core (setTask (unpark s t x.key) t { x with pc := .failed (failKind x) })
-          exact ⟨this.1.core c2 (releaseWaiter_conns _), this.2.core c2 (releaseWaiter_waitq _)⟩
-        · exact this
-      · exact oinv_enter i1 o1 q1 false
-  · next res hpc =>
+  · next hk r htr =>
     split
-    · have := oinv_setTask t { x with pc := .failed (failKind x) } h hq
-      exact oinv_releaseAcquired this.1 this.2 (fun c e => by cases e)
+    · exact ⟨h, hq⟩
+    · have c := sameCore_setTask_fut (y := { x with tr := none }) hx rfl rfl
+      have := oinv_setTask t { x with tr := none } h hq
+      exact oinv_resumeTrace (hi.core c) this.1 this.2 hk
+  · split
+    · split
+      · exact oinv_setTask _ _ h hq
+      · exact oinv_enter hi h hq true
     · split
       · exact ⟨h, hq⟩
-      · have := oinv_setTask t { x with pc := .failed .oserr } h hq
+      · exact oinv_afterFut hi h hq
+    · next res hpc =>
+      split
+      · have := oinv_setTask t { x with pc := .failed (failKind x) } h hq
         exact oinv_releaseAcquired this.1 this.2 (fun c e => by cases e)
-      · dsimp only
-        split
-        · refine ⟨?_, hq⟩
-          intro c hc
-          have hc' : connOpen s c = true := by
-            unfold connOpen at hc ⊢
-            simp only [setTask] at hc
-            by_cases e : c < s.conns.length
-            · rw [List.getElem?_append_left e] at hc; exact hc
-            · have e2 : s.conns.length ≤ c := Nat.le_of_not_lt e
-              rw [List.getElem?_append_right e2] at hc
-              cases hh : c - s.conns.length <;> simp [hh] at hc
-          exact h c hc'
-        · refine ⟨?_, hq⟩
-          intro c hc
-          show c ∈ s.idle ∨ Slot.conn c ∈ sinsert (Slot.conn s.conns.length) (sremove (Slot.ph t) s.acquired)
-          by_cases e : c < s.conns.length
-          · have hc' : connOpen s c = true := by
-              unfold connOpen at hc ⊢
-              simp only [setTask] at hc
-              rw [List.getElem?_append_left e] at hc; exact hc
-            rcases h c hc' with h1 | h1
-            · exact Or.inl h1
-            · exact Or.inr (mem_sinsert.mpr (Or.inr (mem_sremove.mpr ⟨h1, by intro e'; cases e'⟩)))
-          · have e2 : s.conns.length ≤ c := Nat.le_of_not_lt e
-            by_cases e3 : c = s.conns.length
-            · subst e3; exact Or.inr (mem_sinsert.mpr (Or.inl rfl))
-            · exfalso
-              unfold connOpen at hc
-              simp only [setTask] at hc
-              rw [List.getElem?_append_right e2] at hc
-              have : c - s.conns.length ≠ 0 := by
-                intro h0; exact e3 (Nat.le_antisymm (Nat.le_of_sub_eq_zero h0) e2)
-              cases hh : c - s.conns.length
-              · exact this hh
-              · simp [hh] at hc
-  · exact ⟨h, hq⟩
+      · split
+        · exact ⟨h, hq⟩
+        · have := oinv_setTask t { x with pc := .failed .oserr } h hq
+          exact oinv_releaseAcquired this.1 this.2 (fun c e => by cases e)
+        · dsimp only
+          split
+          · refine ⟨?_, hq⟩
+            intro d hd
+            have hd' : connOpen { s with conns := s.conns ++ [({ key := x.key } : Conn)] } d = true := hd
+            show d ∈ s.idle ∨ Slot.conn d ∈ s.acquired ∨ d ∈ s.conns.length :: s.pendingNew
+            rcases connOpen_append hd' with h1 | h1
+            · rcases h d h1 with h2 | h2 | h2
+              · exact Or.inl h2
+              · exact Or.inr (Or.inl h2)
+              · exact Or.inr (Or.inr (List.mem_cons_of_mem _ h2))
+            · subst h1; exact Or.inr (Or.inr (by simp))
+          · refine oinv_swapOrClosed (s := { s with conns := s.conns ++ [({ key := x.key } : Conn)] }) ?_ hq
+            intro d ne hd
+            rcases connOpen_append hd with h1 | h1
+            · exact h d h1
+            · exact absurd h1 ne
+    · exact ⟨h, hq⟩
 
 theorem oinv_cancelTask {s : St} {t : Tid} {x : Task} (h : OInv s) (hq : QInv s) (b : Bool) :
     OInv (cancelTask s t x b) ∧ QInv (cancelTask s t x b) := by
@@ -1179,7 +1436,7 @@ theorem oinv_cancelTask {s : St} {t : Tid} {x : Task} (h : OInv s) (hq : QInv s)
   all_goals repeat' split
   all_goals first
     | exact ⟨h, hq⟩
-    | exact ⟨h.of_eq rfl rfl rfl, hq⟩
+    | exact ⟨h.of_eq rfl rfl rfl rfl, hq⟩
 
 theorem foldl_closeConn_open (l : List Cid) (s : St) (c : Cid) :
     connOpen (l.foldl closeConn s) c = true → connOpen s c = true ∧ c ∉ l := by
@@ -1224,7 +1481,7 @@ theorem cancelWaiters_conns (l : List Tid) (s : St) : (cancelWaiters s l).conns 
       · exact ih s
     · exact ih s
 
-theorem closeAll_no_open {s : St} (h : OInv s) (hc : s.closed = false) (c : Cid) :
+theorem closeAll_no_open {s : St} (h : OInv s) (hc : s.closed = false) (c : Cid) (hp : c ∉ s.pendingNew) :
     connOpen (closeAll Fixes.all s) c = false := by
   cases e : connOpen (closeAll Fixes.all s) c
   · rfl
@@ -1239,15 +1496,41 @@ theorem closeAll_no_open {s : St} (h : OInv s) (hc : s.closed = false) (c : Cid)
     rw [foldl_closeConn_acquired] at h2
     obtain ⟨h3, h4⟩ := foldl_closeConn_open _ _ c h1
     have h5 : connOpen s c = true := h3
-    rcases h c h5 with h6 | h6
+    rcases h c h5 with h6 | h6 | h6
     · exact h4 h6
     · exact h2 h6
+    · exact hp h6
+
+theorem foldl_closeConn_pending (l : List Cid) (s : St) : (l.foldl closeConn s).pendingNew = s.pendingNew := by
+  induction l generalizing s with
+  | nil => rfl
+  | cons a t ih => simp only [List.foldl_cons]; rw [ih]; rfl
+theorem closeSlots_pending (l : List Slot) (s : St) : (closeSlots s l).pendingNew = s.pendingNew := by
+  induction l generalizing s with
+  | nil => rfl
+  | cons a t ih => cases a <;> simp only [closeSlots] <;> rw [ih] <;> rfl
+theorem cancelWaiters_pending (l : List Tid) (s : St) : (cancelWaiters s l).pendingNew = s.pendingNew := by
+  induction l generalizing s with
+  | nil => rfl
+  | cons a t ih =>
+    simp only [cancelWaiters]; split
+    · split
+      · rw [ih]; rfl
+      · exact ih s
+    · exact ih s
+theorem closeAll_pending (s : St) : (closeAll Fixes.all s).pendingNew = s.pendingNew := by
+  unfold closeAll; split
+  · rfl
+  · simp only [cancelWaiters_pending, closeSlots_pending, foldl_closeConn_pending]
 
 theorem oinv_closeAll {s : St} (h : OInv s) (hq : QInv s) :
     OInv (closeAll Fixes.all s) ∧ QInv (closeAll Fixes.all s) := by
   cases hc : s.closed
   · refine ⟨?_, ?_⟩
-    · intro c hcc; rw [closeAll_no_open h hc] at hcc; cases hcc
+    · intro c hcc
+      by_cases hp : c ∈ s.pendingNew
+      · exact Or.inr (Or.inr (by rw [closeAll_pending]; exact hp))
+      · rw [closeAll_no_open h hc c hp] at hcc; cases hcc
     · intro _; exact (closeAll_fields hc).2.2.2.2.1
   · have : closeAll Fixes.all s = s := by simp [closeAll, hc]
     rw [this]; exact ⟨h, hq⟩
@@ -1258,7 +1541,7 @@ theorem oinv_step {s : St} (hi : Inv s) (h : OInv s) (hq : QInv s) (l : Label) :
   | spawn t =>
     simp only [step]; split
     · split
-      · exact ⟨h.of_eq rfl rfl rfl, hq⟩
+      · exact ⟨h.of_eq rfl rfl rfl rfl, hq⟩
       · exact ⟨h, hq⟩
     · exact ⟨h, hq⟩
   | tick =>
@@ -1267,12 +1550,12 @@ theorem oinv_step {s : St} (hi : Inv s) (h : OInv s) (hq : QInv s) (l : Label) :
     · next t rest hr =>
       have c : SameCore s { s with ready := rest } := sameCore_ready s rest
       split
-      · exact oinv_resume (hi.core c) (h.of_eq rfl rfl rfl) hq
-      · exact ⟨h.of_eq rfl rfl rfl, hq⟩
+      · next x hx => exact oinv_resume (hi.core c) (h.of_eq rfl rfl rfl rfl) hq hx
+      · exact ⟨h.of_eq rfl rfl rfl rfl, hq⟩
   | createDone t ok =>
     simp only [step]; split
     · split
-      · exact ⟨h.of_eq rfl rfl rfl, hq⟩
+      · exact ⟨h.of_eq rfl rfl rfl rfl, hq⟩
       · exact ⟨h, hq⟩
     · exact ⟨h, hq⟩
   | cancel t =>
@@ -1289,8 +1572,10 @@ theorem oinv_step {s : St} (hi : Inv s) (h : OInv s) (hq : QInv s) (l : Label) :
       split
       · next c hpc =>
         split
-        · exact ⟨h.of_eq rfl rfl rfl, hq⟩
-        · obtain ⟨f1, f2, f3, f4, f5⟩ := releaseAcquired_fields (setTask s t { x with pc := .done }) x.key (.conn c)
+        · exact ⟨h, hq⟩
+        split
+        · exact ⟨h.of_eq rfl rfl rfl rfl, hq⟩
+        · obtain ⟨f1, f2, f3, f4, f5, f6⟩ := releaseAcquired_fields (setTask s t { x with pc := .done }) x.key (.conn c)
           have q1 : QInv (releaseAcquired (setTask s t { x with pc := .done }) x.key (.conn c)) := by
             intro hc; rw [f3] at hc
             have := hq hc
@@ -1300,13 +1585,15 @@ theorem oinv_step {s : St} (hi : Inv s) (h : OInv s) (hq : QInv s) (l : Label) :
           · refine ⟨?_, q1⟩
             intro d hd
             have hd' : connOpen s d = true := by rw [← connOpen_congr (s := s) (s' := releaseAcquired (setTask s t { x with pc := .done }) x.key (.conn c)) f1]; exact hd
-            show d ∈ (releaseAcquired (setTask s t { x with pc := .done }) x.key (.conn c)).idle ++ [c] ∨ _
-            rw [f2]
+            show d ∈ (releaseAcquired (setTask s t { x with pc := .done }) x.key (.conn c)).idle ++ [c] ∨ _ ∨
+              d ∈ (releaseAcquired (setTask s t { x with pc := .done }) x.key (.conn c)).pendingNew
+            rw [f2, f6]
             by_cases e : d = c
             · subst e; left; simp
-            · rcases h d hd' with h1 | h1
+            · rcases h d hd' with h1 | h1 | h1
               · left; exact List.mem_append_left _ h1
-              · right; exact f4 _ h1 (by intro e'; cases e'; exact e rfl)
+              · right; left; exact f4 _ h1 (by intro e'; cases e'; exact e rfl)
+              · right; right; exact h1
           · refine ⟨?_, q1⟩
             intro d hd
             rw [connOpen_closeConn] at hd
@@ -1314,11 +1601,13 @@ theorem oinv_step {s : St} (hi : Inv s) (h : OInv s) (hq : QInv s) (l : Label) :
             · cases hd
             · next e =>
               have hd' : connOpen s d = true := by rw [← connOpen_congr (s := s) (s' := releaseAcquired (setTask s t { x with pc := .done }) x.key (.conn c)) f1]; exact hd
-              show d ∈ (releaseAcquired (setTask s t { x with pc := .done }) x.key (.conn c)).idle ∨ _
-              rw [f2]
-              rcases h d hd' with h1 | h1
+              show d ∈ (releaseAcquired (setTask s t { x with pc := .done }) x.key (.conn c)).idle ∨ _ ∨
+                d ∈ (releaseAcquired (setTask s t { x with pc := .done }) x.key (.conn c)).pendingNew
+              rw [f2, f6]
+              rcases h d hd' with h1 | h1 | h1
               · exact Or.inl h1
-              · right; exact f4 _ h1 (by intro e'; cases e'; exact e rfl)
+              · right; left; exact f4 _ h1 (by intro e'; cases e'; exact e rfl)
+              · right; right; exact h1
       all_goals exact ⟨h, hq⟩
     · exact ⟨h, hq⟩
   | lose c =>
@@ -1331,7 +1620,15 @@ theorem oinv_step {s : St} (hi : Inv s) (h : OInv s) (hq : QInv s) (l : Label) :
       · exact h d hd
     · exact ⟨h, hq⟩
   | close => exact oinv_closeAll h hq
-  | shuffle p => exact ⟨h.of_eq rfl rfl rfl, hq⟩
+  | shuffle p => exact ⟨h.of_eq rfl rfl rfl rfl, hq⟩
+  | traceDone t =>
+    simp only [step]; split
+    · split
+      · split
+        · exact ⟨h.of_eq rfl rfl rfl rfl, hq⟩
+        · exact ⟨h, hq⟩
+      · exact ⟨h, hq⟩
+    · exact ⟨h, hq⟩
 
 theorem oinv_run {s : St} (hi : Inv s) (hw : WaitInv s) (h : OInv s) (hq : QInv s) (ls : List Label) :
     OInv (run Fixes.all s ls) ∧ QInv (run Fixes.all s ls) := by
@@ -1342,10 +1639,12 @@ theorem oinv_run {s : St} (hi : Inv s) (hw : WaitInv s) (h : OInv s) (hq : QInv 
     have o := oinv_step hi h hq l
     exact ih i.1 i.2 o.1 o.2
 
-theorem oinv_init (limit lph : Nat) (keys : List Key) : OInv (init limit lph keys) ∧ QInv (init limit lph keys) := by
+theorem oinv_init (limit lph : Nat) (keys : List Key) (mask : Nat) :
+    OInv (init limit lph keys mask) ∧ QInv (init limit lph keys mask) := by
   refine ⟨?_, ?_⟩
   · intro c hc; simp [connOpen, init] at hc
   · intro hc; simp [init] at hc
+
 
 /-! ## the wake-up step -/
 
@@ -1403,6 +1702,9 @@ theorem wakeScan_spec (s : St) (k : Key) (l : List Tid) :
           · left; exact List.mem_cons_of_mem _ h1
           · right; exact h1
 
+/-- the trace callback task `u` is suspended in, if any -/
+def trOf (s : St) (u : Tid) : Option (Hook × Bool) := match s.tasks[u]? with | some x => x.tr | none => none
+
 theorem futOf_wake {s : St} {u : Tid} (h : futOf s u = .pending) : futOf (wake s u) u = .woken := by
   unfold futOf at h
   unfold wake
@@ -1418,7 +1720,8 @@ and `u` was a queued pending waiter whose key has capacity -/
 theorem releaseWaiterKeys_wakes (ks : List Key) : ∀ (s : St) (t : Tid),
     keyOf s t ∈ ks → hasCap s (keyOf s t) = true → t ∈ s.waitq → futOf s t = .pending →
     ∃ u, u ∈ s.waitq ∧ futOf s u = .pending ∧ hasCap s (keyOf s u) = true
-      ∧ (releaseWaiterKeys s ks).ready = s.ready ++ [u] ∧ futOf (releaseWaiterKeys s ks) u = .woken := by
+      ∧ (releaseWaiterKeys s ks).ready = (if (trOf s u).isNone then s.ready ++ [u] else s.ready)
+      ∧ futOf (releaseWaiterKeys s ks) u = .woken := by
   induction ks with
   | nil => intro s t h; cases h
   | cons k ks ih =>
@@ -1438,7 +1741,7 @@ theorem releaseWaiterKeys_wakes (ks : List Key) : ∀ (s : St) (t : Tid),
             | some x => exact ⟨x, rfl⟩
           obtain ⟨x, hx⟩ := this
           have hx' : ({ s with waitq := (wakeScan s k s.waitq).2 } : St).tasks[u]? = some x := hx
-          simp only [hx']
+          simp only [hx', trOf, hx]
         · exact futOf_wake (s := { s with waitq := (wakeScan s k s.waitq).2 }) h3
       · next hn =>
         -- no pending waiter of key k: t has another key and is still queued
@@ -1460,5 +1763,6 @@ theorem releaseWaiterKeys_wakes (ks : List Key) : ∀ (s : St) (t : Tid),
         · exact absurd e hne
         · exact e
       exact ih s t hk' hcap hw hf
+
 
 end Aio.C07
